@@ -125,18 +125,17 @@ class DHTDiscoveryCommunity(DHTCommunity):
         """
         Attempt to connect to a peer with the given mid, at first without a DHT lookup.
         """
-        if mid in self.store:
+        # Note that ``store`` is a defaultdict: a key may be present with an empty list (after a connect-peer-request for
+        # it, or after the last peer stored under it expired). That is not a hit.
+        if self.store.get(mid):
             return self.store[mid]
 
         # If a peer is provided, we will first try to ping the peer (to see if it's connectable).
         # This could potentially save an expensive DHT lookup.
         if peer:
             node = Node(peer.key, peer.address)
-            try:
-                await self.ping(node)
-            except DHTError:
-                pass
-            else:
+            # Note that ``ping`` consumes its time-out: the future then resolves to None instead of raising.
+            if await self.ping(node) is not None:
                 return [node]
 
         nodes = cast("list[Node]", await self.find_nodes(mid))
